@@ -459,63 +459,7 @@ Proof.
 Qed.
 
 (* ------------------------------------------------------------------ *)
-(** * the writer's tokens are the specification's spelling *)
-
-Lemma bytes_eqb_eq a : forall b, bytes_eqb a b = true -> a = b.
-Proof.
-  induction a as [|x t IH]; intros [|y u] H; cbn [bytes_eqb] in H; try discriminate; [reflexivity|].
-  apply andb_true_iff in H. destruct H as [H1 H2]. apply N.eqb_eq in H1. subst. f_equal. apply IH. exact H2.
-Qed.
-
-Lemma forall_u16 (P : N -> bool) :
-  forallb (fun h => forallb (fun l => P (h * 256 + l)) all_bytes) all_bytes = true -> forall x, x < 65536 -> P x = true.
-Proof.
-  intros H x Hx.
-  assert (Hh : x / 256 < 256) by (apply N.div_lt_upper_bound; lia).
-  assert (Hl : x mod 256 < 256) by (apply N.mod_lt; lia).
-  pose proof (forall_bytes _ H (x / 256) Hh) as H1. cbv beta in H1.
-  pose proof (forall_bytes _ H1 (x mod 256) Hl) as H2. cbv beta in H2.
-  replace (x / 256 * 256 + x mod 256) with x in H2 by (pose proof (N.div_mod x 256); lia). exact H2.
-Qed.
-
-(* "{:04X}" of a u16 = two upper-case digits per byte of its big-endian form; the delimiters are < and > *)
-Lemma tbl_hexw4 : forall x, x < 65536 ->
-  hexw (font_wuni_upper =? 1) (N.to_nat font_wuni_digits) x = hexU [x / 256; x mod 256].
-Proof.
-  intros x Hx. apply bytes_eqb_eq. revert x Hx.
-  apply (forall_u16 (fun x => bytes_eqb (hexw (font_wuni_upper =? 1) (N.to_nat font_wuni_digits) x) (hexU [x / 256; x mod 256]))).
-  vm_compute. reflexivity.
-Qed.
-
-Lemma write_cid_std c : c < 65536 -> write_cid c = hstr (cid_bytes c).
-Proof.
-  intros Hc. unfold write_cid, hstr, cid_bytes.
-  change [font_wcid_open] with [60]. change [font_wcid_close] with [62].
-  change (hexw (font_wcid_upper =? 1) (N.to_nat font_wcid_digits) c)
-    with (hexw (font_wuni_upper =? 1) (N.to_nat font_wuni_digits) c).
-  rewrite (tbl_hexw4 c Hc). reflexivity.
-Qed.
-
-Lemma hexU_app a b : hexU (a ++ b) = hexU a ++ hexU b.
-Proof. unfold hexU. apply flat_map_app. Qed.
-
-Lemma units_hex us : Forall (fun x => x < 65536) us ->
-  flat_map (hexw (font_wuni_upper =? 1) (N.to_nat font_wuni_digits)) us
-  = hexU (flat_map (fun x => [x / 256; x mod 256]) us).
-Proof.
-  induction 1 as [|x t Hx Ht IH]; [reflexivity|].
-  cbn [flat_map]. rewrite hexU_app, <- IH, (tbl_hexw4 x Hx). reflexivity.
-Qed.
-
-Lemma write_unicode_std u : wf_ustr u -> write_unicode u = hstr (utf16be_bytes u).
-Proof.
-  intros Hu. unfold write_unicode, hstr, utf16be_bytes.
-  change [font_wuni_open] with [60]. change [font_wuni_close] with [62]. cbn [app]. f_equal. f_equal.
-  induction u as [|c t IH]; [reflexivity|].
-  unfold wf_ustr in Hu. cbn [forallb] in Hu. apply andb_true_iff in Hu. destruct Hu as [Hc Ht].
-  cbn [flat_map]. rewrite flat_map_app, hexU_app, <- (IH Ht). f_equal.
-  rewrite encode_utf16_units. apply units_hex. apply utf16_units_u16. exact Hc.
-Qed.
+(** * writer -> reader on concrete maps, and the repaired defect *)
 
 (** write_cmap -> parse_cmap on concrete maps (singles, runs, supplementary planes, empty strings, top of the
     code space); the universal statement is validated by correspondence (mode cmap_rt) — see DESIGN §12.C19 *)
